@@ -258,10 +258,16 @@ fn hyphenate_impl(hyphenater: &Hyphenator, list: &[ds::Horizontal]) -> Vec<ds::H
             continue;
         }
 
+        // TeX.2021.903: the word is rebuilt starting from the left boundary only if its first node
+        // is a ligature that includes the boundary.
+        let starts_at_left_boundary = matches!(
+            list.get(hyphenation_start_i),
+            Some(ds::Horizontal::Ligature(l)) if l.includes_left_boundary
+        );
         let mut main_iter = hyphenater.lig_kern_program.run_with_options(
             s.chars(),
             RunOptions {
-                disable_left_boundary: false,
+                disable_left_boundary: !starts_at_left_boundary,
                 right_boundary_override,
             },
         );
